@@ -225,7 +225,10 @@ def replay_known(ctx):
         w = e.get("witness", {})
         mods = w.get("mods")
         fails = None
-        if mods:
+        if mods and "diag" in w.get("expect", {}):
+            out = core.go_lines("modgraph", [mod_line("modgraph", mods)], timeout=120)[0]
+            fails = fields(out).get("D") == w["expect"]["diag"]
+        elif mods:
             fails = witness_fails(mods, w.get("expect", {}).get("lexical_out"))
         ctx.known(e["id"], e["what"] + ("" if fails or fails is None else " [witness no longer fails]"))
         if fails is False:
